@@ -57,6 +57,11 @@ var c20Alphabet = []string{
 	"SELECT n FROM `$DIR/sub/../t`",
 	"SELECT n FROM `$DIR/./t.csv`",
 	"SELECT n FROM u UNION ALL SELECT n FROM t FOR UPDATE",
+	// the file named through the table functions URL:: and FILE:: and through a format function
+	"SELECT n FROM URL::('file:$DIR/t.csv')",
+	"SELECT n FROM FILE::('$DIR/t.csv')",
+	"SELECT n FROM CSV(',', URL::('file:$DIR/t.csv'))",
+	"SELECT n FROM CSV(',', `t.csv`)",
 	// an UPDATE whose new value reads the table being updated: every row sees the table as it was before the statement
 	"UPDATE t SET n = (SELECT MAX(n) FROM t) + 1",
 	// a cell of u used as a clause value (never fewer than the rows of t), then something that builds new strings
@@ -65,12 +70,16 @@ var c20Alphabet = []string{
 
 // other ways of reading t: for the reference they are the plain SELECT
 var c20Same = map[string]string{
-	"SELECT n FROM `t.csv`":                        "SELECT n FROM t",
-	"SELECT x.n FROM t AS x":                       "SELECT n FROM t",
-	"SELECT n FROM (SELECT n FROM t) AS s":         "SELECT n FROM t",
-	"SELECT n FROM t WHERE n IN (SELECT n FROM t)": "SELECT n FROM t",
-	"SELECT n FROM `$DIR/sub/../t`":                "SELECT n FROM t",
-	"SELECT n FROM `$DIR/./t.csv`":                 "SELECT n FROM t",
+	"SELECT n FROM `t.csv`":                            "SELECT n FROM t",
+	"SELECT x.n FROM t AS x":                           "SELECT n FROM t",
+	"SELECT n FROM (SELECT n FROM t) AS s":             "SELECT n FROM t",
+	"SELECT n FROM t WHERE n IN (SELECT n FROM t)":     "SELECT n FROM t",
+	"SELECT n FROM `$DIR/sub/../t`":                    "SELECT n FROM t",
+	"SELECT n FROM `$DIR/./t.csv`":                     "SELECT n FROM t",
+	"SELECT n FROM URL::('file:$DIR/t.csv')":           "SELECT n FROM t",
+	"SELECT n FROM FILE::('$DIR/t.csv')":               "SELECT n FROM t",
+	"SELECT n FROM CSV(',', URL::('file:$DIR/t.csv'))": "SELECT n FROM t",
+	"SELECT n FROM CSV(',', `t.csv`)":                  "SELECT n FROM t",
 }
 
 // the first c20CoreLen entries of the alphabet are the core statements
@@ -479,6 +488,9 @@ func c20Run(c *core.Ctx) {
 }
 
 func c20Replay(c *core.Ctx, payload json.RawMessage) {
+	if c20RemoteReplay(c, payload) {
+		return
+	}
 	var cs c20Case
 	if err := json.Unmarshal(payload, &cs); err != nil {
 		fmt.Println(err)
